@@ -118,7 +118,7 @@ func runC04(args []string) {
 			cov["evaluations"] = e + extra
 		}
 		cov["patterns_per_image"] = len(amgr.Patterns("A", amgr.Seed("A")))
-		cov["rule"] = "every operation sequence up to the depth over create/derive/new account/new scope/imports/passphrase changes/lock/unlock/convert-to-watching-only/restart; at the commit boundary after the last operation the raw database file (all pages incl. freed ones) is scanned for every secret that can exist for the seed (seed, master/coin-type/account xprv + raw keys, address private keys raw/hex/WIF, imported keys, secret scripts, passphrases) and, since no transaction is recorded, every sensitive public datum (xpubs, public keys, x-only keys, hash160s, script hashes, address strings); after conversion + reopen addresses must be known and nothing unlocks; non-trivial = sequences with at least one key-creating or importing operation"
+		cov["rule"] = "every operation sequence up to the depth over create/derive/new account/new scope/imports/passphrase changes/lock/unlock/convert-to-watching-only/restart; at the commit boundary after the last operation the raw database file (all pages incl. freed ones) is scanned for every secret that can exist for the seed (seed, master/coin-type/account xprv + raw keys, address private keys raw/hex/WIF, imported keys, secret scripts, passphrases) and, since no transaction is recorded, every sensitive public datum (xpubs, public keys, x-only keys, hash160s, script hashes, address strings); after conversion + reopen addresses must be known and nothing unlocks; non-trivial = sequences with at least one key-creating or importing operation. Wallet-level part: every sequence of up to 3 Wallet.InitAccounts(scope, watchOnly, n) calls; after a conversion that returned nil the reopened wallet must be watching-only (no unlock, no private key, addresses known)"
 		if _, ok := cov["samples"]; !ok {
 			cov["samples"] = []string{"(none)"}
 		}
@@ -179,6 +179,11 @@ func runC04(args []string) {
 		}
 		mu.Unlock()
 	}, run.Expired)
+	wex, wev := c04Wallet(run, func(sig, msg string, seq []c04wStep) {
+		run.Violation(sig, msg, map[string]interface{}{"kind": "c04-wallet", "sequence": seq})
+	})
+	execs += wex
+	evals += wev
 	var obsList []string
 	for o := range obsSet {
 		obsList = append(obsList, o)
@@ -187,6 +192,7 @@ func runC04(args []string) {
 		"states@set":                    obsList,
 		"transitions":                   execs,
 		"traces_validated_against_impl": execs,
+		"wallet_level_executions":       wex,
 		"evaluations":                   evals,
 		"distinct_nontrivial":           nontrivial,
 		"executions":                    done,
